@@ -6,14 +6,14 @@ CROSS_CHECK = True      # thorough: dumped assertion queries are re-decided by z
 LEVEL = "model_checking"
 STUBS = ["array -> SymArray('B')", "bytes/int/Struct shadows (restore-from-export harness)"]
 ASSUMPTIONS = [
-    "sub-filters use a one-hash geometry (rate 0.5 -> k = 1 for est 1..5; rate 0.3 -> k = 2 in thorough): the growth logic never looks at the geometry, membership itself is C01",
+    "step / history harnesses: sub-filters use a one-hash geometry (rate 0.5 -> k = 1 for est 1..5; rate 0.3 -> k = 2 in thorough); that the growth rule does not depend on the geometry is NOT assumed but decided separately by the boundary sweep (concrete counters at the boundary, real float code, a grid of real geometries); membership itself is C01",
     "pre-state (no push in the history): every sub-filter but the newest holds exactly est insertions, the newest between 1 and est (0..est when it is the only one); bit arrays arbitrary; asserted again on the post-state (inductive)",
     "with push in the history only 'no sub-filter exceeds est' is claimed (as the property states)",
     "elements_added arbitrary (it is only incremented)",
 ]
 BOUNDS = {
-    "quick": "est in {1,2,3,5}, 1..3 sub-filters (one-hash geometry) and est 1..3 with 1..2 two-hash sub-filters, add of a new / duplicate / forced key and push; histories of 4 adds from fresh with est 1..2; restore-from-export of 1..3 sub-filters",
-    "thorough": "adds 3 two-hash sub-filters and est 8",
+    "quick": "boundary sweep: est 1..64 x rates .05...5 (10 values), newest counter at est-1 and est, real float statistics; est in {1,2,3,5}, 1..3 sub-filters (one-hash geometry) and est 1..3 with 1..2 two-hash sub-filters, add of a new / duplicate / forced key and push; histories of 4 adds from fresh with est 1..2; restore-from-export of 1..3 sub-filters",
+    "thorough": "adds 3 two-hash sub-filters and est 8; boundary sweep est 1..128 with the counter also at est-2",
     "outside": "more than 3 sub-filters in the pre-state (the step is independent of the number of full older filters, but that is not decided here); est > 8",
 }
 EXPECT_LABELS = {"quick": ["no-overfill", "no-early-growth", "expansions-formula", "dup-counted-not-inserted", "elements_added+1",
@@ -82,6 +82,50 @@ def step(ctx, cfg):
     ctx.check(ctx.and_([ctx.eq(c, est) for c in cnt2[:-1]] + ([ctx.ge(cnt2[-1], 1)] if L2 > 1 else [])), "invariant-again")
 
 
+def boundary(ctx, cfg):
+    """the step harness assumes that growth never looks at the geometry; this one drops that assumption on a grid of real
+    geometries: counter of the newest sub-filter CONCRETE at est-2 / est-1 / est (so that any float statistic the growth rule may
+    consult is computed by the real float code), bit arrays and the inserted positions symbolic, forced insertion"""
+    env.setup(ctx, "bloom", "expanding")
+    from probables import ExpandingBloomFilter, RotatingBloomFilter, BloomFilter
+    est, rate, c, L = cfg["est"], cfg["rate"], cfg["c"], cfg["L"]
+    if cfg.get("rotating"):
+        f = RotatingBloomFilter(est_elements=est, false_positive_rate=rate, max_queue_size=L)
+    else:
+        f = ExpandingBloomFilter(est_elements=est, false_positive_rate=rate)
+    sym_state(ctx, f, L, est, BloomFilter)
+    for b in f._blooms[:-1]:
+        b._els_added = est
+    f._blooms[-1]._els_added = c
+    first = f._blooms[0]
+    k, m = first.number_hashes, first.number_bits
+    h = [ctx.hashval(f"h{i}", m) for i in range(k)]
+    f.add_alt(h, True)
+    L2 = len(f._blooms)
+    if c < est:
+        ctx.check(L2 == L and f._blooms[-1].elements_added == c + 1, "no-early-growth")
+        ctx.check(f._blooms[0] is first, "boundary-oldest-kept")
+    elif cfg.get("rotating"):
+        ctx.check(L2 == L and f._blooms[0] is not first and f._blooms[-1].elements_added == 1, "boundary-rotates-when-full")
+    else:
+        ctx.check(L2 == L + 1 and f._blooms[-1].elements_added == 1, "boundary-grows-when-full")
+    ctx.check(all(b.elements_added <= est for b in f._blooms), "no-overfill")
+    ctx.check(f.check_alt(h) is True, "present-after")
+
+
+BOUNDARY_RATES = (.5, .45, .4, .35, .3, .25, .2, .15, .1, .05)
+
+
+def boundary_jobs(tier, rotating):
+    js = []
+    for est in range(1, 65 if tier == "quick" else 129):
+        for rate in BOUNDARY_RATES:
+            for c in sorted({est - 1, est} | ({max(0, est - 2)} if tier == "thorough" else set())):
+                js.append({"h": "c09.boundary", "cfg": {"est": est, "rate": rate, "c": c, "L": 2 if rotating else 1, "rotating": rotating},
+                           "opts": {"cost": est, "no_witness": c != est - 1}})
+    return js
+
+
 def push(ctx, cfg):
     env.setup(ctx, "bloom", "expanding")
     from probables import ExpandingBloomFilter, BloomFilter
@@ -139,7 +183,7 @@ def restored(ctx, cfg):
                        [ctx.iff(p, q) for p, q in zip(bits(ctx, f), bits(ctx, g))]), "restored-state-same")
 
 
-HARNESS = {"c09.step": step, "c09.push": push, "c09.history": history, "c09.restored": restored}
+HARNESS = {"c09.boundary": boundary, "c09.step": step, "c09.push": push, "c09.history": history, "c09.restored": restored}
 
 
 def jobs(tier):
@@ -157,6 +201,7 @@ def jobs(tier):
         for L in (1, 2) if tier == "quick" else (1, 2, 3):
             for force in (False, True):
                 js.append({"h": "c09.step", "cfg": {"est": est, "L": L, "force": force, "rate": 0.3}, "opts": {"cost": 50}})
+    js += boundary_jobs(tier, False)
     for est in (1, 2):
         for forces in itertools.product((False, True), repeat=4):
             js.append({"h": "c09.history", "cfg": {"est": est, "n": 4, "forces": list(forces)}})
